@@ -36,6 +36,24 @@ def prepare(w):
     return done
 
 
+class AppendStore:
+    """an append written as an indexed store (byte-wise copy loop) presented like the memcpy call the rules expect: args[0] is the destination"""
+
+    def __init__(self, st, gep):
+        self.st = st
+        self.id = st.id
+        self.op = "store-append"
+        self.bb = st.bb
+        self.idx = st.idx
+        self.line = st.line
+        self.fn = st.fn
+        self.callee = None
+        self.args = [{"k": "inst", "id": gep.id}, st["val"], None]
+
+    def loc(self):
+        return self.st.loc()
+
+
 def send_roles(w):
     P = w.P
     prepare(w)
@@ -78,6 +96,24 @@ def send_roles(w):
                             if any(t2[0] == "gaddr" and t2[1] == t[1] for l in fl.all_insts() if l.op == "load" for t2 in flow.origins(fl, l["ptr"])):
                                 batch.add(t[1])
                                 append.append((f, i))
+    # the append may also be written as a byte-wise copy loop: indexed stores into a static array that the flush routine reads
+    flush_names = {f_.name for f_ in flush}
+    for f in P.repo_functions():
+        if f.name in flush_names or any(g_ is f for g_, i_ in append):
+            continue
+        for i in f.all_insts():
+            if i.op != "store":
+                continue
+            gp = f.resolve(i["ptr"])
+            if gp is None or gp.op != "getelementptr" or not gp["idx"] or gp["base"].get("k") != "global":
+                continue
+            gname = gp["base"]["name"]
+            gd = P.globals.get(gname, {})
+            if gd.get("internal") and gd.get("type", "").startswith("[") and gname not in staging and not gd.get("const") and \
+                    any(t2[0] == "gaddr" and t2[1] == gname for l in fl.all_insts() if l.op == "load" for t2 in flow.origins(fl, l["ptr"])):
+                batch.add(gname)
+                append.append((f, AppendStore(i, gp)))
+                break
     if not batch or not staging:
         raise AnalysisBroken("batch/staging buffers not identified")
     roles["batch"] = batch
